@@ -13,10 +13,18 @@ literal-index table.  Proved here, for all stores:
 * `later_traces_irrelevant` — records stored under fresh ids afterwards do not disturb it either;
 * nothing of the earlier program can appear: emitted tables hold only records reachable from the
   outputs (`C09.no_dead_ops`).
-Not proved (decided by the K3 metamorphic run on the real code): invariance under the id shift and
-the literal renaming that an earlier history induces.
+* `trace_shift_equivariant` / `after_any_history` — **the trace itself**: whatever state an earlier history left
+  (counter `n`, any records, any literal table), tracing a program there goes exactly as tracing it in a fresh
+  process with every id shifted by `n`, on top of the old records, up to the names of literals: the same commands
+  are accepted and rejected with the same errors, the registers and open function brackets hold the shifted
+  values, and every record the program stores is the shifted record (`shifted_lookup`).  Proved by a relational
+  simulation of all 28 commands (`Lemmas/Shift.lean`); the one command that reads the store (`Array(value, size)`)
+  needs that the ids in the registers are stored, which holds of every reachable machine (`trace_stored`).
+Not proved (decided by the K3 metamorphic run on the real code): that the *compiler walk* commutes with the id
+shift and the literal renaming (the walk is a pure function of the records it looks up, `compile_mono`).
 -/
 import NadaVerif.Lemmas.Mono
+import NadaVerif.Lemmas.Shift
 import NadaVerif.Lemmas.Exact
 import NadaVerif.Props.C01
 
@@ -77,6 +85,43 @@ theorem later_program_nothing_missing (cs more : List Cmd) (outs : List OutDecl)
     compile (runCmds (runCmds {} cs).1 more).1.st outs ≠ .error .key :=
   C01.history_compile_no_missing cs more outs ho
 
+/-- **The trace of a program does not depend on what the process traced before**, up to the id shift and literal
+names: from the state `⟨n, hist, lits⟩` any history left — with no assumption on it at all — the same commands are
+accepted and rejected, with the same errors; the counter, the registers, the open function brackets and the records
+stored are those of a fresh process shifted by `n`, the old records lying behind them. -/
+theorem trace_shift_equivariant (n : Nat) (hist : List (Id × AstOp)) (lits : List String) (cs : List Cmd) :
+    (runCmds { st := ⟨n, hist, lits⟩ } cs).2 = (runCmds {} cs).2 ∧
+    (runCmds { st := ⟨n, hist, lits⟩ } cs).1.st.counter = (runCmds {} cs).1.st.counter + n ∧
+    (runCmds { st := ⟨n, hist, lits⟩ } cs).1.st.ops.map eraseE =
+      (runCmds {} cs).1.st.ops.map (shiftEraseE n) ++ hist.map eraseE ∧
+    (runCmds { st := ⟨n, hist, lits⟩ } cs).1.regs = shiftRegs n (runCmds {} cs).1.regs ∧
+    (runCmds { st := ⟨n, hist, lits⟩ } cs).1.frames = shiftFrames n (runCmds {} cs).1.frames := by
+  have h0 : MRel n hist ({} : Mach) { st := ⟨n, hist, lits⟩ } :=
+    ⟨⟨by simp, by simp⟩, by simp [shiftRegs], by simp [shiftFrames]⟩
+  have h := runCmds_sim cs h0 machSto_init
+  exact ⟨h.2.symm, h.1.st.counter, h.1.st.ops, h.1.regs, h.1.frames⟩
+
+/-- the special case the property names: the earlier history is itself a trace — complete programs, rejected
+commands, aborted function bodies, whatever `cs0` is -/
+theorem after_any_history (cs0 cs : List Cmd) :
+    let h := (runCmds {} cs0).1.st
+    (runCmds { st := h } cs).2 = (runCmds {} cs).2 ∧
+    (runCmds { st := h } cs).1.st.ops.map eraseE =
+      (runCmds {} cs).1.st.ops.map (shiftEraseE h.counter) ++ h.ops.map eraseE ∧
+    (runCmds { st := h } cs).1.regs = shiftRegs h.counter (runCmds {} cs).1.regs := by
+  intro h
+  have := trace_shift_equivariant h.counter h.ops h.lits cs
+  exact ⟨this.1, this.2.2.1, this.2.2.2.1⟩
+
+/-- every record the later program stored is found under the shifted id, shifted, up to the literal's name — the
+old records never shadow it -/
+theorem shifted_lookup (n : Nat) (hist : List (Id × AstOp)) (lits : List String) (cs : List Cmd) (c : Id) (op : AstOp)
+    (h : (runCmds {} cs).1.st.lookup c = some op) :
+    ((runCmds { st := ⟨n, hist, lits⟩ } cs).1.st.lookup (c + n)).map AstOp.eraseIdx = some (op.shift n).eraseIdx := by
+  have h0 : MRel n hist ({} : Mach) { st := ⟨n, hist, lits⟩ } :=
+    ⟨⟨by simp, by simp⟩, by simp [shiftRegs], by simp [shiftFrames]⟩
+  exact lookup_rel (runCmds_sim cs h0 machSto_init).1.st c op h
+
 /-- Non-vacuity: a store with an earlier program's records (ids 1–3) behind program B (ids 4–6). -/
 def opsB : List (Id × AstOp) :=
   [(6, .binary "Addition" 4 5 (.scalar "SecretInteger")),
@@ -87,5 +132,18 @@ def opsA : List (Id × AstOp) :=
 example : (compile ⟨6, opsB ++ opsA, []⟩ [OutDecl.mk 6 "o" "P"]).toOption =
       (compile ⟨6, opsB, []⟩ [OutDecl.mk 6 "o" "P"]).toOption ∧
     (compile ⟨6, opsB, []⟩ [OutDecl.mk 6 "o" "P"]).toOption.isSome = true := by decide
+
+/-- Non-vacuity of the shift theorem: an earlier program left 3 records; the later program (two inputs, a sum, a
+literal, a rejected command) stores the same records under ids shifted by 3, the literal under another name. -/
+def laterProg : List Cmd :=
+  [.party "P", .inputObj "a" "" 0, .wrap ⟨.sec, .int⟩ 1, .lit .int (.int 7), .bin .add 2 3, .bin .add 0 2]
+example :
+    (runCmds {} laterProg).2 = [none, none, none, none, none, some .unsupported] ∧
+    (runCmds { st := ⟨3, opsA, ["1Integer", "7Integer"]⟩ } laterProg).2 = (runCmds {} laterProg).2 ∧
+    (runCmds {} laterProg).1.st.lookup 2 = some (.literal "7" 0 (.scalar "Integer")) ∧
+    (runCmds { st := ⟨3, opsA, ["1Integer", "7Integer"]⟩ } laterProg).1.st.lookup 5 = some (.literal "7" 1 (.scalar "Integer")) ∧
+    (runCmds { st := ⟨3, opsA, ["1Integer", "7Integer"]⟩ } laterProg).1.st.lookup 6 =
+      some (.binary "Addition" 4 5 (.scalar "SecretInteger")) := by
+  decide +kernel
 
 end NadaVerif.C08
